@@ -8,6 +8,7 @@ CONSTANTS
   PoleRots <- QuickRots
   GridSteps = {}
   DataN = {}
+  BigDataN = {}
   DataClasses <- AllDataClasses
   Weights <- QuickWeights
 INVARIANT JudgeEmit
